@@ -37,7 +37,7 @@ def _dir(draw):
     n = draw(st.integers(1, 4))
     files = draw(st.lists(st.tuples(gen.names(toplevel=True, hostile_ratio=0.3), st.sampled_from(["f", "f", "d", "h"])),
                           min_size=n, max_size=n, unique_by=lambda t: t[0] + (".html" if t[1] == "h" else "")))
-    deco = draw(st.sampled_from(["plain", "plain", "names", "cap", "abstract", "zipparent"]))
+    deco = draw(st.sampled_from(["plain", "plain", "names", "cap", "abstract", "zipparent", "abstract-linksyntax"]))
     return {"files": [list(f) for f in files], "deco": deco, "title": draw(st.text("abcdef", min_size=1, max_size=5))}
 
 
@@ -59,7 +59,7 @@ def _draw_dirs(tier, seed):
     t()
     decos = {d["deco"] for d in out}
     # make sure the decorated kinds are represented
-    for i, deco in enumerate(["names", "cap", "zipparent"]):
+    for i, deco in enumerate(["names", "cap", "zipparent", "abstract-linksyntax"]):
         if deco not in decos and len(out) > i:
             out[i] = dict(out[i], deco=deco)
     _dirs_cache[key] = out
@@ -92,6 +92,11 @@ def _spec(d):
         spec.append([".cap/" + names[0], "f", "Name=Capped %s\nAbstract=first\\\nsecond\n" % d["title"]])
     elif d["deco"] == "abstract":
         spec.append([names[0] + ".abstract" if d["files"][0][1] != "d" else names[0] + "/.abstract", "f", "about it\nmore\n"])
+    elif d["deco"] == "abstract-linksyntax":
+        # an abstract that documents link files: its text (stored verbatim in the cache file) has link-file syntax
+        spec.append([names[0] + ".abstract" if d["files"][0][1] != "d" else names[0] + "/.abstract", "f",
+                     "How to write a .names file:\n\nName=Our mirror in Minnesota\nType=1\nPath=/pub\nHost=mirror.example\nPort=70\n\n"
+                     "Type=X\nPath=./%s\n\nType=\n" % names[-1]])
     elif d["deco"] == "zipparent":
         spec.append(["arch.zip", "zip", {"members": [["m.txt", "f", "member\n", {}], ["sub/n.txt", "f", "n\n", {}]]}])
     return spec
